@@ -30,8 +30,8 @@ fn size_pairs(tier: Tier) -> Vec<(usize, usize)> {
     let sz = sizes(tier);
     let mut v: Vec<(usize, usize)> = sz.iter().flat_map(|&w| sz.iter().map(move |&h| (w, h))).collect();
     let extra: &[(usize, usize)] = match tier {
-        Tier::Quick => &[(128, 2), (2, 128), (257, 1), (1, 257), (132, 4), (65, 3), (129, 2), (96, 80)],
-        Tier::Thorough => &[(127, 2), (128, 2), (129, 2), (2, 127), (2, 128), (2, 129), (255, 4), (256, 4), (257, 1), (1, 257), (4, 256), (132, 4), (320, 8), (8, 320), (100, 100), (65, 3), (129, 2), (96, 80), (192, 6), (260, 12), (512, 2)],
+        Tier::Quick => &[(128, 2), (2, 128), (257, 1), (1, 257), (132, 4), (65, 3), (129, 2), (96, 80), (1280, 54)],
+        Tier::Thorough => &[(127, 2), (128, 2), (129, 2), (2, 127), (2, 128), (2, 129), (255, 4), (256, 4), (257, 1), (1, 257), (4, 256), (132, 4), (320, 8), (8, 320), (100, 100), (65, 3), (129, 2), (96, 80), (192, 6), (260, 12), (512, 2), (1280, 54), (720, 92), (300, 220), (513, 513)],
     };
     v.extend_from_slice(extra);
     v
@@ -256,9 +256,39 @@ fn check_float(acc: &mut Acc, idx: u64, w: usize, h: usize, op: &str) {
             return;
         }
     }
-    if fconv(op, data, w, h).ok().map(|o| o.0) != Some(out) {
+    if fconv(op, data.clone(), w, h).ok().map(|o| o.0) != Some(out.clone()) {
         acc.violation(idx, format!("not-repeatable op={op}"), format!("{w}x{h}: second run differs"), case());
         return;
+    }
+    // pointwise whatever the neighbours are: replace every fifth pixel by an out-of-range / special
+    // one; all other outputs must stay bit-identical, the replaced ones equal their 1x1 conversion
+    if w * h >= 3 {
+        let specials: [[f32; 3]; 4] = [[-0.3, 1.7, 2.5], [1e30, -1e30, 0.0], [f32::NAN, 0.5, f32::INFINITY], [-0.0, 0.0, 1e-40]];
+        let mut data2 = data.clone();
+        for i in (2..w * h).step_by(5) {
+            data2[i] = specials[(i / 5) % 4];
+        }
+        acc.transitions += 1;
+        match fconv(op, data2.clone(), w, h) {
+            Ok((o2, _, _)) => {
+                for i in 0..w * h {
+                    let want = if i >= 2 && (i - 2) % 5 == 0 { fconv(op, vec![data2[i]], 1, 1).map(|o| o.0[0]).unwrap_or([0xDEAD_BEEF; 3]) } else { out[i] };
+                    if o2[i] != want {
+                        acc.violation(
+                            idx,
+                            format!("not-pointwise op={op} (output depends on neighbouring pixels)"),
+                            format!("{w}x{h}: with out-of-range / special pixels at every fifth position, output pixel {i} = {:?} instead of {:?}", o2[i].map(f32::from_bits), want.map(f32::from_bits)),
+                            case(),
+                        );
+                        return;
+                    }
+                }
+            }
+            Err(e) => {
+                acc.violation(idx, format!("conversion-failed op={op} {}", panic_site(&e)), format!("{w}x{h} with special neighbours: {e}"), case());
+                return;
+            }
+        }
     }
     acc.bucket("float conversion: pointwise, order-preserving, repeatable", 1);
 }
@@ -565,6 +595,162 @@ fn check_histories(rep: &mut Report, tier: Tier, base_idx: u64) {
     rep.extra.insert("history_ops".into(), json!(n));
 }
 
+// ---- process-level histories --------------------------------------------------------------------
+//
+// Thread-local state is reset by a fresh thread, process-wide state (a `static` cache) is not. The
+// same pair-covering walk is therefore repeated in ONE single-threaded child process, and its
+// results are compared with references obtained from one fresh *process* per operation.
+
+fn digest_json(r: &Result<Vec<u32>, String>) -> Value {
+    match r {
+        Ok(v) => json!({"ok": v}),
+        Err(e) => json!({"err": e}),
+    }
+}
+
+/// Operations of the process-level walk: the history alphabet restricted to the first image variant.
+fn proc_ops(tier: Tier) -> Vec<HOp> {
+    hist_ops(tier).into_iter().filter(|o| o.variant == 0).collect()
+}
+
+/// `mc histrun <file>`: run the listed operations in order on the main thread of this (fresh)
+/// process and print one digest per operation.
+pub fn histrun_main(path: &str) {
+    let v: Value = serde_json::from_str(&std::fs::read_to_string(path).expect("ops file")).expect("ops json");
+    let ops: Vec<HOp> = v.as_array().unwrap().iter().map(hop_from).collect();
+    let out: Vec<Value> = ops.iter().map(|o| digest_json(&hist_run(o))).collect();
+    println!("{}", Value::Array(out));
+}
+
+/// `mc histwalk <tier> <refs file>`: walk [a, b1, a, b2, ...] for every a, single-threaded, and
+/// print the first call whose result differs from its fresh-process reference.
+pub fn histwalk_main(tier: Tier, refs_path: &str) {
+    let ops = proc_ops(tier);
+    let refs: Value = serde_json::from_str(&std::fs::read_to_string(refs_path).expect("refs file")).expect("refs json");
+    let refs = refs.as_array().unwrap();
+    let mut prev: Option<usize> = None;
+    let mut calls = 0u64;
+    for a in 0..ops.len() {
+        for b in 0..ops.len() {
+            for cur in [b, a] {
+                calls += 1;
+                if digest_json(&hist_run(&ops[cur])) != refs[cur] {
+                    println!("{}", json!({"mismatch": true, "prev": prev, "cur": cur, "calls": calls}));
+                    return;
+                }
+                prev = Some(cur);
+            }
+        }
+    }
+    println!("{}", json!({"mismatch": false, "calls": calls}));
+}
+
+fn child_json(args: &[&str]) -> Option<Value> {
+    let exe = std::env::current_exe().ok()?;
+    let out = std::process::Command::new(exe).args(args).stderr(std::process::Stdio::null()).output().ok()?;
+    if !out.status.success() {
+        return None;
+    }
+    let s = String::from_utf8_lossy(&out.stdout);
+    serde_json::from_str(s.lines().last()?).ok()
+}
+
+fn scratch_file(name: &str) -> String {
+    let dir = std::env::var("MC_SCRATCH").unwrap_or_else(|_| std::env::temp_dir().to_string_lossy().to_string());
+    format!("{dir}/mc-{}-{name}", std::process::id())
+}
+
+/// One fresh process per operation list.
+fn run_in_fresh_process(ops: &[HOp], tag: &str) -> Option<Vec<Value>> {
+    let f = scratch_file(&format!("histops-{tag}.json"));
+    std::fs::write(&f, Value::Array(ops.iter().map(hop_json).collect()).to_string()).ok()?;
+    let r = child_json(&["histrun", &f]);
+    let _ = std::fs::remove_file(&f);
+    r.and_then(|v| v.as_array().cloned())
+}
+
+fn check_histories_process(rep: &mut Report, tier: Tier, base_idx: u64) {
+    let ops = proc_ops(tier);
+    let n = ops.len();
+    // references: one fresh process per operation
+    let refs: Vec<Value> = {
+        let acc = std::sync::Mutex::new(vec![Value::Null; n]);
+        par_chunks(n as u64, 8, |_, lo, hi| {
+            for i in lo..hi {
+                if let Some(mut r) = run_in_fresh_process(&[ops[i as usize]], &format!("ref{i}")) {
+                    acc.lock().unwrap()[i as usize] = r.remove(0);
+                }
+            }
+        });
+        acc.into_inner().unwrap()
+    };
+    if refs.iter().any(|r| r.is_null()) {
+        rep.guard("process-level histories: every reference process ran", false);
+        return;
+    }
+    let rf = scratch_file("histrefs.json");
+    std::fs::write(&rf, Value::Array(refs.clone()).to_string()).expect("refs file");
+    let walk = child_json(&["histwalk", tier.name(), &rf]);
+    let _ = std::fs::remove_file(&rf);
+    let Some(walk) = walk else {
+        rep.guard("process-level histories: the walking child ran to completion", false);
+        return;
+    };
+    let calls = walk["calls"].as_u64().unwrap_or(0);
+    rep.acc.states += calls;
+    rep.acc.transitions += calls + n as u64;
+    rep.extra.insert("process_history_ops".into(), json!(n));
+    if walk["mismatch"] == false {
+        rep.acc.bucket("process-level histories (single-threaded walk in one child process): every result equals its fresh-process result", calls);
+        return;
+    }
+    let cur = walk["cur"].as_u64().unwrap() as usize;
+    // minimise: does [prev, cur] alone reproduce it in a fresh process? else the walk prefix is the history
+    let mut history: Vec<HOp> = vec![];
+    if let Some(p) = walk["prev"].as_u64() {
+        let pair = [ops[p as usize], ops[cur]];
+        if let Some(r) = run_in_fresh_process(&pair, "pair") {
+            if r[1] != refs[cur] {
+                history = pair.to_vec();
+            }
+        }
+    }
+    if history.is_empty() {
+        // rebuild the prefix of the walk up to the failing call
+        let mut k = 0u64;
+        'outer: for a in 0..n {
+            for b in 0..n {
+                for c in [b, a] {
+                    history.push(ops[c]);
+                    k += 1;
+                    if k == calls {
+                        break 'outer;
+                    }
+                }
+            }
+        }
+    }
+    rep.acc.violation(
+        base_idx,
+        format!("result-depends-on-call-history conv={:?} (process-wide state)", ops[cur].conv),
+        format!("in a fresh process, after {} earlier call(s), {:?} gives a result that differs from the same call made first in a fresh process", history.len() - 1, ops[cur]),
+        json!({"kind":"c11histproc","ops": history.iter().map(hop_json).collect::<Vec<_>>()}),
+    );
+}
+
+fn replay_history_process(case: &Value) -> (bool, String) {
+    let ops: Vec<HOp> = case["ops"].as_array().unwrap().iter().map(hop_from).collect();
+    let last = *ops.last().unwrap();
+    let (Some(alone), Some(seq)) = (run_in_fresh_process(&[last], "ralone"), run_in_fresh_process(&ops, "rseq")) else {
+        return (false, "could not run the child processes".into());
+    };
+    if seq.last() != alone.last() {
+        (true, format!("result-depends-on-call-history conv={:?} (process-wide state) :: after {} earlier calls in a fresh process the result differs from the same call made first", last.conv, ops.len() - 1))
+    } else {
+        (false, "history independent".into())
+    }
+}
+
 fn replay_history(case: &Value) -> (bool, String) {
     let ops: Vec<HOp> = case["ops"].as_array().unwrap().iter().map(hop_from).collect();
     let last = *ops.last().unwrap();
@@ -711,9 +897,10 @@ pub fn run(tier: Tier) -> Report {
     });
     rep.acc.merge(acc);
     check_histories(&mut rep, tier, base + ec.len() as u64);
+    check_histories_process(&mut rep, tier, base + ec.len() as u64 + 1);
     rep.guard_bucket("histories [a,b] and [a,b,a]: every result equals the fresh-thread result");
     rep.bound = format!(
-        "call histories [a,b] and [a,b,a] over an alphabet of {} operations (10 conversions x metadata varying every field from {} base triples x {} image variants), each on a fresh thread; image sizes {:?}^2 (plus long/large shapes such as 128x2, 2x128, 257x1, 256x4, 320x8) restricted to multiples of the subsampling x 6 subsamplings x u8/u16 x 4 metadata sets: {} YUV sources (each to Rgb, LinearRgb, Xyb; by reference, by value, repeated, and rebuilt with {} other paddings/poisons; 0..=32 on each axis at 4x4 and 8x8), {} float->float conversions (8 kinds), {} encodes (4 source kinds)",
+        "process-level histories: the same walk over the first image variant in one single-threaded child process against one fresh process per operation; call histories [a,b] and [a,b,a] over an alphabet of {} operations (10 conversions x metadata varying every field from {} base triples x {} image variants), each on a fresh thread; image sizes {:?}^2 (plus long/large shapes such as 128x2, 2x128, 257x1, 256x4, 320x8) restricted to multiples of the subsampling x 6 subsamplings x u8/u16 x 4 metadata sets: {} YUV sources (each to Rgb, LinearRgb, Xyb; by reference, by value, repeated, and rebuilt with {} other paddings/poisons; 0..=32 on each axis at 4x4 and 8x8), {} float->float conversions (8 kinds), {} encodes (4 source kinds)",
         rep.extra.get("history_ops").and_then(|v| v.as_u64()).unwrap_or(0), tier.pick(2, 4), tier.pick(3, 5),
         sizes(tier), dc.len(), pads(tier, 5, 5).len(), fc.len(), ec.len()
     );
@@ -743,6 +930,7 @@ pub fn replay(case: &Value) -> (bool, String) {
         }
         "c11float" => check_float(&mut acc, 0, g("w"), g("h"), case["op"].as_str().unwrap()),
         "c11hist" => return replay_history(case),
+        "c11histproc" => return replay_history_process(case),
         "c11decseq" => {
             let tier = if case["tier"] == "thorough" { Tier::Thorough } else { Tier::Quick };
             let cases: Vec<DecCase> = case["cases"].as_array().unwrap().iter().map(|c| DecCase {
